@@ -8,7 +8,7 @@ its JSON form.  Oracle: the non-compiling coder (differential), plus the referen
 import hashlib
 import json
 
-from vlib import runner, sut, std, encutil, corpusio
+from vlib import runner, sut, std, encutil, corpusio, fuzz
 from vlib.compare import first_value_diff
 from vlib.runner import Outcome, Report, Reject
 from gen import messages as gmsg, templates as gtemplates, pool as gpool
@@ -450,6 +450,17 @@ def gen_opts(tier):
     return opts
 
 
+# ---- coverage-guided stage: the same generator and oracle, decisions taken from fuzzer bytes (vlib.fuzz) ----
+_FUZZ_OPTS = gen_opts('quick')
+
+
+def _fuzz_gen(ch):
+    return gen_history(ch, _FUZZ_OPTS)
+
+
+fuzz_case = fuzz.structured_target(_fuzz_gen, check_history)
+
+
 def run(tier, seed):
     rep = Report(PID, tier, seed, 'exploration')
     rep.rule = ('generated histories: 1..4 scope-balanced messages with every operator (incl. the same template with other data / other '
@@ -509,6 +520,7 @@ def run(tier, seed):
                             'op_205', 'op_206', 'op_207', 'op_208', 'op_221_skipped', 'op_222_qa', 'op_223255', 'op_224255',
                             'op_225255', 'op_232255', 'op_235', 'op_236', 'op_237000', 'op_237255', 'op_zero_rep', 'op_nested_rep',
                             'op_same_template_other_data', 'op_near_twin_template', 'op_bitmap_in_rep', 'table_d_program', 'table_d_decodes', 'corpus']
+    fuzz.run_structured(rep, 'checks.c08', _fuzz_gen, tier)
     return rep.finish()
 
 
